@@ -14,6 +14,7 @@ import (
 	"github.com/evanoberholster/imagemeta/isobmff"
 	"github.com/evanoberholster/imagemeta/jpeg"
 	"github.com/evanoberholster/imagemeta/meta"
+	"github.com/evanoberholster/imagemeta/meta/utils"
 	"github.com/evanoberholster/imagemeta/png"
 	"github.com/evanoberholster/imagemeta/tiff"
 	"github.com/evanoberholster/imagemeta/xmp"
@@ -551,7 +552,52 @@ func EntryByName(n string) *Entry {
 			return e
 		}
 	}
+	for _, e := range ExtraEntries {
+		if e.Name == n {
+			return e
+		}
+	}
 	return nil
+}
+
+// ExtraEntries are entry points added after campaigns had begun to enumerate Entries by index
+// (so they are kept apart): the methods of the reader that exif2.NewIfdReader returns, called
+// directly on an Exif block as a container scanner would call them.
+var ExtraEntries = []*Entry{
+	{Name: "exif2.DecodeJPEGIfd", Hint: "tiff", Call: func(env *Env, r *world.SimReader, res *Result) { ifdDirect(env, r, res, true) }},
+	{Name: "exif2.DecodeIfd", Hint: "tiff", Call: func(env *Env, r *world.SimReader, res *Result) { ifdDirect(env, r, res, false) }},
+}
+
+func ifdDirect(env *Env, r *world.SimReader, res *Result, jpegStyle bool) {
+	ir := exif2.NewIfdReader(exif2.Logger)
+	defer ir.Close()
+	rd := mkReader(env, r, res)
+	prepos(env, r, rd)
+	// the caller knows the block: byte order, first directory and length come from its bytes
+	d := r.Data
+	if env.Prepos > 0 && env.Prepos <= len(d) {
+		d = d[env.Prepos:] // the stream was handed over mid-way: the block is what is left of it
+	}
+	if len(d) < 8 {
+		res.Err, res.Fields = "short", &Fields{}
+		return
+	}
+	bo := utils.BinaryOrder(d[:4])
+	h := meta.NewExifHeader(bo, bo.Uint32(d[4:8]), 0, uint32(len(d)), imagetype.ImageJPEG)
+	var err error
+	m0()
+	if jpegStyle {
+		// the reader stands at the TIFF header
+		err = ir.DecodeJPEGIfd(rd, h)
+	} else {
+		// the reader stands behind the TIFF header
+		var hdr [8]byte
+		if _, err = io.ReadFull(rd, hdr[:]); err == nil {
+			err = ir.DecodeIfd(rd, h)
+		}
+	}
+	m1()
+	setExif(res, ir.Exif, err)
 }
 
 // Invoke calls an entry point with panic capture. A panic swallowed by the library's own
